@@ -44,7 +44,27 @@ pub struct Case {
     /// the command line, the saved parameter file and the reloaded run changes the output
     #[serde(default)]
     pub boundary_lon: bool,
+    /// how arguments are spelled: 0 `--name=value`, 1 short `-x=value`, 2 `--name value` (for non-negative values)
+    #[serde(default)]
+    pub arg_style: u8,
+    /// leave --method out (the documented default is isna)
+    #[serde(default)]
+    pub omit_method: bool,
+    /// leave --end-date out (the end date then defaults to the start date: a one-day range)
+    #[serde(default)]
+    pub omit_end: bool,
 }
+
+/// (long name, short flag) of each CLI option
+const FLAGS: [(&str, &str); 7] = [
+    ("--latitude", "-l"),
+    ("--longitude", "-t"),
+    ("--elevation", "-e"),
+    ("--gmt", "-g"),
+    ("--start-date", "-s"),
+    ("--end-date", "-n"),
+    ("--method", "-m"),
+];
 
 static COUNTER: AtomicU64 = AtomicU64::new(0);
 
@@ -102,29 +122,65 @@ fn fmt_f(v: f64) -> String {
     format!("{}", v)
 }
 
+fn eff_method(c: &Case) -> usize {
+    if c.omit_method {
+        5 // isna, the documented default
+    } else {
+        c.method as usize
+    }
+}
+fn eff_len(c: &Case) -> i64 {
+    if c.omit_end {
+        1
+    } else {
+        c.len as i64
+    }
+}
+
 fn base_args(c: &Case) -> Vec<(u8, String, String)> {
-    let end = c.start + chrono::Duration::days(c.len as i64 - 1);
+    let end = c.start + chrono::Duration::days(eff_len(c) - 1);
     let mut a = vec![
         (0u8, "--latitude".to_string(), fmt_f(c.site.lat.0)),
         (1, "--longitude".to_string(), fmt_f(c.site.lon.0)),
         (3, "--gmt".to_string(), fmt_f(c.site.gmt.0)),
         (4, "--start-date".to_string(), c.start.to_string()),
-        (5, "--end-date".to_string(), end.to_string()),
-        (9, "--method".to_string(), CLI_METHOD[c.method as usize].to_string()),
     ];
+    if !c.omit_end {
+        a.push((5, "--end-date".to_string(), end.to_string()));
+    }
+    if !c.omit_method {
+        a.push((9, "--method".to_string(), CLI_METHOD[c.method as usize].to_string()));
+    }
     if c.pass_elevation {
         a.push((2, "--elevation".to_string(), fmt_f(c.site.elev.0)));
     }
     a
 }
 
+/// spells the (name, value) pairs in the case's argument style
+fn spell(c: &Case, pairs: &[(u8, String, String)]) -> Vec<String> {
+    let mut out = Vec::new();
+    for (_, n, v) in pairs {
+        let short = FLAGS.iter().find(|(l, _)| l == n).map(|(_, s)| *s);
+        match (c.arg_style % 3, short) {
+            (1, Some(s)) => out.push(format!("{}={}", s, v)),
+            (2, _) if !v.starts_with('-') && !v.is_empty() => {
+                out.push(n.clone());
+                out.push(v.clone());
+            }
+            _ => out.push(format!("{}={}", n, v)),
+        }
+    }
+    out
+}
+
 fn expected_json(c: &Case) -> Value {
-    let params = Params::new(METHODS[c.method as usize]);
+    let params = Params::new(METHODS[eff_method(c)]);
     let mut site = c.site;
     if !c.pass_elevation {
         site.elev = F(0.0);
     }
-    let end = c.start + chrono::Duration::days(c.len as i64 - 1);
+    let end = c.start + chrono::Duration::days(eff_len(c) - 1);
     let map = prayer_times_dt_rng(&params, site.location(), &DateRange::from(c.start..=end));
     let mut root = serde_json::Map::new();
     for (d, times) in map.iter() {
@@ -142,12 +198,12 @@ fn expected_json(c: &Case) -> Value {
 }
 
 fn check_listing(c: &Case, stdout: &[u8]) -> Result<(), Failure> {
-    let params = Params::new(METHODS[c.method as usize]);
+    let params = Params::new(METHODS[eff_method(c)]);
     let mut site = c.site;
     if !c.pass_elevation {
         site.elev = F(0.0);
     }
-    let end = c.start + chrono::Duration::days(c.len as i64 - 1);
+    let end = c.start + chrono::Duration::days(eff_len(c) - 1);
     let map = prayer_times_dt_rng(&params, site.location(), &DateRange::from(c.start..=end));
     let text = String::from_utf8_lossy(stdout);
     // lenient parsing: the block of a date starts at the line that contains its Hijri date text and ends where the
@@ -206,7 +262,10 @@ fn cmdline(args: &[String]) -> String {
 
 /// longitude next to c.site.lon at which the start date's Dhuhr (default rounding of Params::new) changes its minute
 fn boundary_longitude(c: &Case) -> Option<f64> {
-    let params = Params::new(METHODS[c.method as usize]);
+    // Dhuhr does not depend on the extreme-latitude policy: bisect without it (the default nearest-good-day search
+    // costs ~0.3 s per call near the poles)
+    let mut params = Params::new(METHODS[eff_method(c)]);
+    params.extreme_latitude_method = islamic_prayer_times::ExtremeLatitudeMethod::None;
     let f = |lon: f64| -> Option<i64> {
         let mut s = c.site;
         s.lon = F(lon);
@@ -248,7 +307,7 @@ fn check_case(c0: &Case, st: &mut Stats, dir: &Path) -> Result<(), Failure> {
     let out_a = dir.join("outA.json");
     let params_p = dir.join("params.json");
     let out_b = dir.join("outB.json");
-    let mk = |pairs: &[(u8, String, String)]| -> Vec<String> { pairs.iter().map(|(_, n, v)| format!("{}={}", n, v)).collect() };
+    let mk = |pairs: &[(u8, String, String)]| -> Vec<String> { spell(c, pairs) };
 
     if let Some(inv) = &c.invalid {
         match inv {
@@ -453,13 +512,14 @@ impl Prop for C19 {
                 .prop_map(move |text| Some(Invalid::ParamFile { which: w, text }))
             }),
         ];
-        (0u8..9, site, any::<bool>(), gen::date(), len, any::<bool>(), any::<bool>(), invalid, any::<bool>(), prop_oneof![4 => Just(false), 1 => Just(true)])
-            .prop_map(|(method, site, pass_elevation, start, len, out_file, params_file, invalid, preexisting_files, boundary_lon)| {
+        let style = (0u8..3, prop_oneof![5 => Just(false), 1 => Just(true)], prop_oneof![5 => Just(false), 1 => Just(true)]);
+        (0u8..9, site, any::<bool>(), gen::date(), len, any::<bool>(), any::<bool>(), invalid, any::<bool>(), prop_oneof![4 => Just(false), 1 => Just(true)], style)
+            .prop_map(|(method, site, pass_elevation, start, len, out_file, params_file, invalid, preexisting_files, boundary_lon, (arg_style, omit_method, omit_end))| {
                 let start = start.min(gen::date_hi() - chrono::Duration::days(400));
                 // the default nearest-good-day policy costs up to ~40 ms per day beyond the polar circles: keep
                 // long ranges to moderate latitudes (both dimensions are still covered, not their product)
                 let len = if site.lat.0.abs() > 64.0 { len.min(4) } else if site.lat.0.abs() > 50.0 { len.min(30) } else { len };
-                Case { method, site, pass_elevation, start, len, out_file, params_file, invalid, preexisting_files, boundary_lon }
+                Case { method, site, pass_elevation, start, len, out_file, params_file, invalid, preexisting_files, boundary_lon, arg_style, omit_method, omit_end }
             })
             .boxed()
     }
@@ -473,7 +533,11 @@ impl Prop for C19 {
         let n = COUNTER.fetch_add(1, Ordering::SeqCst);
         let dir = out_dir().join("work").join("c19").join(format!("{}-{}", std::process::id(), n));
         std::fs::create_dir_all(&dir).map_err(|e| Failure::new("infra:mkdir", "work dir", e.to_string()))?;
+        let t0 = Instant::now();
         let r = check_case(c, st, &dir);
+        if t0.elapsed() > Duration::from_secs(15) {
+            eprintln!("note: slow C19 case ({:.0} s): {}", t0.elapsed().as_secs_f64(), serde_json::to_string(c).unwrap_or_default());
+        }
         let _ = std::fs::remove_dir_all(&dir);
         if r.is_ok() {
             if c.invalid.is_none() && (c.len >= 2 || c.site.lat.0 < 0.0 || c.site.lon.0 < 0.0 || c.site.gmt.0 < 0.0) {
@@ -496,7 +560,7 @@ impl Prop for C19 {
         r
     }
     fn rule(&self) -> String {
-        "generated command lines: method (9 clap value names), latitude/longitude/elevation/GMT over their full ranges incl. negatives and bounds passed as --name=value with shortest round-trip formatting, start date from the date mixture, length 1..400 (mass at 1, 2, 365, 366, 400), flag set {none, -o, -p, -o -p} with the saved parameter file fed back through -i; invalid class (30 %): one argument just outside its range / NaN / garbage / impossible date, or a parameter file with one out-of-range embedded value. Each case spawns the repository's binary 1-3 times. Non-trivial = accepted command line with >= 2 days or a negative coordinate/offset, or an invalid-class case; distinct by hash of the case".into()
+        "generated command lines: method (9 clap value names), latitude/longitude/elevation/GMT over their full ranges incl. negatives and bounds passed as --name=value, as short flags -x=value or as '--name value' (non-negative values), with shortest round-trip formatting, --method and --end-date sometimes omitted (documented defaults: isna, the start date), start date from the date mixture, length 1..400 (mass at 1, 2, 365, 366, 400), flag set {none, -o, -p, -o -p} with the saved parameter file fed back through -i; invalid class (30 %): one argument just outside its range / NaN / garbage / impossible date, or a parameter file with one out-of-range embedded value. Each case spawns the repository's binary 1-3 times. Non-trivial = accepted command line with >= 2 days or a negative coordinate/offset, or an invalid-class case; distinct by hash of the case".into()
     }
     fn assumptions(&self) -> Vec<String> {
         vec![
